@@ -12,7 +12,7 @@ use swimos_runtime::agent::DisconnectionReason;
 
 use crate::keys::{key_fact, parse_key, peel, render_remove, render_update, Peeled};
 use crate::lanes::{Emit, Emitted, FailHow, LaneCtl, LaneRec, LaneSpec, MapChangeKind, MapOpText, Payload, Received, LK};
-use crate::remote::{Frame, FrameKind, ReaderEnd, Req, ReqKind};
+use crate::remote::{CorruptHow, Frame, FrameKind, ReaderEnd, Req, ReqKind};
 use crate::run::{Obs, Session, NODE};
 
 const LNF: &[u8] = b"@laneNotFound";
@@ -307,6 +307,11 @@ struct SView {
     /// Requests of earlier attachments under the same routing id.
     prior_reqs: Vec<Req>,
     completion: Option<(u64, Option<DisconnectionReason>)>,
+    /// Overlapping attachments: the session this one was attached over, and the one attached over this one.
+    dup_of: Option<usize>,
+    superseded_by: Option<usize>,
+    /// The remote wrote a request frame that does not decode.
+    corrupt: Option<(u64, Option<u64>, CorruptHow)>,
 }
 
 #[derive(Clone, Copy, PartialEq, Eq, Debug)]
@@ -335,6 +340,23 @@ pub fn check_all(obs: &Obs, out: &mut CaseOut) -> Summary {
         out.inconclusive(format!("agent initialisation failed: {e}"));
         return sum;
     }
+    // The runtime's task panicked in a conversation with overlapping attachments: one finding (everything
+    // else - dropped promises, channels closed with links open - follows from the panic).
+    if let (true, Some(Err(e))) = (obs.sessions.iter().any(|s| s.dup_of.is_some()), &obs.agent_result) {
+        if e.contains("panicked") {
+            for s in &obs.sessions {
+                out.events += s.log.lock().frames.len() as u64;
+            }
+            out.count("dup-attachments-while-the-first-is-open");
+            out.violation(
+                "C04",
+                "dup-attach/runtime-panicked",
+                "the agent runtime panicked after a remote id was attached a second time while its first attachment was open",
+                json!({"error": e, "attachments": obs.sessions.iter().filter(|s| s.dup_of.is_some()).count()}),
+            );
+            return sum;
+        }
+    }
 
     // ---- lanes: the requests the runtime delivered must be well formed
     for li in &lanes {
@@ -357,10 +379,15 @@ pub fn check_all(obs: &Obs, out: &mut CaseOut) -> Summary {
         .map(|s| {
             let l = s.log.lock();
             let r = s.reqs.lock();
-            SView { frames: l.frames.clone(), end: l.end.clone(), reqs: r.reqs.clone(), prior_reqs: vec![], completion: *s.completion.lock() }
+            SView { frames: l.frames.clone(), end: l.end.clone(), reqs: r.reqs.clone(), prior_reqs: vec![], completion: *s.completion.lock(), dup_of: s.dup_of, superseded_by: None, corrupt: r.corrupt }
         })
         .collect();
     let mut views = views;
+    for si in 0..views.len() {
+        if let Some(d) = views[si].dup_of {
+            views[d].superseded_by = Some(si);
+        }
+    }
     for si in 0..views.len() {
         let mut prior = vec![];
         for sj in 0..si {
@@ -372,9 +399,101 @@ pub fn check_all(obs: &Obs, out: &mut CaseOut) -> Summary {
     }
     let views = views;
 
+    // ---- non-UTF-8 map keys: (lane, ticket before, ticket after) of every such event a lane wrote completely
+    let bad_keys: Vec<(usize, u64, u64)> = lanes
+        .iter()
+        .flat_map(|li| li.rec.emitted.iter().filter_map(move |e| match (&e.what, e.t1) {
+            (Emitted::BadKey { .. }, Some(t1)) => Some((li.idx, e.t0, t1)),
+            _ => None,
+        }))
+        .collect();
+    out.add("nonutf8-key-events-written-by-lanes", bad_keys.len() as u64);
+    let cuts = cut_sessions(obs, &lanes, &views, &bad_keys);
+
+    // ---- overlapping attachments: ids some replaced attachment of which got frames that were provably
+    // produced after its promise had been completed
+    let misrouted_ids: HashSet<uuid::Uuid> = obs
+        .sessions
+        .iter()
+        .zip(views.iter())
+        .filter(|(_, v)| !late_frames(v, &lanes, &lane_by_name).is_empty())
+        .map(|(s, _)| s.id)
+        .collect();
+
     // ---- per session, per lane name: protocol state machine, bodies, replicas
     for (si, s) in obs.sessions.iter().enumerate() {
         let v = &views[si];
+        if s.one_way {
+            // A command-only channel: nothing ever comes back on it. Its commands are judged together with
+            // everybody's below (C14 exactly once / in order, C20 command counts, C17 activity); the link /
+            // sync / unlink envelopes a hostile peer writes to it have nobody to be answered to, the rules for
+            // the two-way remotes say whether those were disturbed.
+            if s.attached_t1.is_some() {
+                out.count("oneway-channels-attached");
+            }
+            // The runtime confirmed the channel: it reads from it until the peer closes it or the agent stops.
+            // (A write that fails means the runtime dropped its reading half. Not judged when the agent may stop
+            // by itself, where the instant the stop began is not known to a ticket.)
+            {
+                let g = s.reqs.lock();
+                if let (true, true, Some(tg), true, None) = (s.attached_t1.is_some(), g.write_failed, g.writer_gone, obs.stuck.is_empty(), obs.cfg.inactive_ms) {
+                    if end_request.map_or(true, |e| tg < e) && obs.agent_finished.map_or(true, |f| tg < f) {
+                        out.violation(
+                            "C14",
+                            "oneway/channel-closed-by-the-runtime-while-running",
+                            "the runtime confirmed a command-only channel and then dropped its reading half although the agent was running and nobody had asked it to stop: commands written to it cannot reach their lanes",
+                            json!({"write_failed_at": tg, "attached_at": s.attached_t1, "commands_written": v.reqs.iter().filter(|r| r.t1.is_some()).count()}),
+                        );
+                    }
+                }
+            }
+            for r in v.reqs.iter().filter(|r| r.t1.is_some()) {
+                if r.kind != ReqKind::Command {
+                    out.count("oneway-link-sync-unlink-envelopes-written");
+                    continue;
+                }
+                out.count("oneway-commands-written");
+                if let Some(li) = lane_by_name.get(r.lane.as_str()).map(|i| &lanes[*i]) {
+                    let reached = li.rec.received.iter().any(|x| match &x.what {
+                        Received::Command(b) => *b == r.body,
+                        Received::MapCommand(MapOpText::Update { value, .. }) => matches!(peel(&r.body), Some(Peeled::Update(_, pv)) if pv == value.as_bytes()),
+                        _ => false,
+                    });
+                    if reached {
+                        out.count("oneway-commands-seen-by-their-lane");
+                    }
+                }
+            }
+            continue;
+        }
+        if s.dup_of.is_some() && s.attached_t1.is_some() {
+            out.count("dup-attachments-while-the-first-is-open");
+        }
+        if let Some((_, t1, how)) = v.corrupt {
+            out.count(&format!("corrupt-request-frames/{}", how.name()));
+            if t1.is_some() && s.reqs.lock().write_failed {
+                // the read task ended the remote's request stream after the error: the remote's next write failed
+                out.count("corrupt-request/request-stream-ended-by-the-runtime");
+            }
+            if v.reqs.iter().any(|r| r.t0 > v.corrupt.map_or(0, |c| c.0)) {
+                out.count("corrupt-request/remote-went-on-writing");
+            }
+        }
+        // Non-UTF-8 keys, evidence of the two paths: a remote that was linked to the lane when the event was
+        // written and was cut off (its writer was idle), or that went on receiving what the lane produced
+        // afterwards (the event was discarded on its way into the queue of a busy writer, or written through).
+        for (l, t0, t1) in &bad_keys {
+            let name = &obs.cfg.lanes[*l].name;
+            let frames: Vec<&Frame> = v.frames.iter().filter(|f| f.lane == *name).collect();
+            if !open_before(&frames, *t0).0 {
+                continue;
+            }
+            if cuts[si].map_or(false, |c| c.1 == *l) {
+                out.count("nonutf8-key/linked-remote-cut-off");
+            } else if frames.iter().any(|f| f.kind == FrameKind::Event && emitted_t0(&lanes[*l], &f.body).map_or(false, |t| t > *t1)) {
+                out.count("nonutf8-key/linked-remote-still-served-afterwards");
+            }
+        }
         sum.frames += v.frames.len() as u64;
         out.events += v.frames.len() as u64;
         let is_probe = s.is_probe;
@@ -395,7 +514,48 @@ pub fn check_all(obs: &Obs, out: &mut CaseOut) -> Summary {
             }
         }
 
+        // Overlapping attachments where frames provably went to a replaced attachment: one defect. The frames are
+        // reported on the attachment that got them; what is then missing or surplus on either channel is not
+        // reported again under the general rules. For the attachment that should have got them only the C03
+        // promise is kept: a sync requested on it completes on it.
+        if misrouted_ids.contains(&s.id) {
+            out.count("dup-attach/attachments-of-an-id-with-misrouted-frames");
+            let mut kinds_reported: HashSet<&'static str> = HashSet::new();
+            for (f, lane, tc) in late_frames(v, &lanes, &lane_by_name) {
+                if kinds_reported.insert(f.kind.name()) {
+                    out.violation(
+                        "C04",
+                        format!("dup-attach/frame-written-to-replaced-attachment/{}", f.kind.name()),
+                        "after a remote id was attached a second time and the promise of its first attachment was completed, the runtime wrote a frame that was produced later to the channel of the first attachment",
+                        json!({"lane": lane, "frame": f.kind.name(), "body": show(&f.body), "replaced_at": tc, "received_at": f.ticket}),
+                    );
+                }
+            }
+            if v.superseded_by.is_none() && quiescent_ok && reader_alive_at_q {
+                for (lane, lf) in &by_lane {
+                    let Some(li) = lane_by_name.get(lane.as_str()).map(|i| &lanes[*i]) else { continue };
+                    if li.fail_t.is_some() || li.rec.write_error.is_some() || lf.prior.iter().any(|r| r.kind == ReqKind::Sync) {
+                        continue;
+                    }
+                    if let Some(last_sync) = lf.reqs.iter().filter(|r| r.kind == ReqKind::Sync && r.t1.map_or(false, |t| t < q)).last() {
+                        let unlink_after = lf.reqs.iter().any(|r| r.kind == ReqKind::Unlink && r.t0 > last_sync.t0);
+                        let answered = lf.frames.iter().any(|f| f.kind == FrameKind::Synced && f.ticket > last_sync.t0);
+                        if !unlink_after && !answered {
+                            out.violation(
+                                "C03",
+                                format!("dup-attach/sync-on-the-second-attachment-never-completed/{}", li.spec.kind.name()),
+                                "a sync requested on the second attachment of a remote id was never answered there with synced (frames of that id were written to the replaced first attachment)",
+                                json!({"lane": lane}),
+                            );
+                        }
+                    }
+                }
+            }
+        }
         for (lane, lf) in &by_lane {
+            if misrouted_ids.contains(&s.id) {
+                break;
+            }
             let li = lane_by_name.get(lane.as_str()).map(|i| &lanes[*i]);
             // A sync requested under this routing id by an earlier attachment may be answered here, in part
             // (what the lane sent while the connection was not attached is gone): a facet of the signatures.
@@ -403,6 +563,11 @@ pub fn check_all(obs: &Obs, out: &mut CaseOut) -> Summary {
             let unknown = li.is_none();
             let kind = li.map(|l| l.spec.kind.name()).unwrap_or("unknown");
             let mut open = false;
+            // An attachment made over an open one under the same id: the links of that id stay registered in
+            // the runtime (the statement speaks of (remote, lane) pairs, not of channels), so whether a link is
+            // open when this attachment begins is not known from this channel's frames alone. Until the first
+            // linked / unlinked on this channel, frames that need an open link are not judged.
+            let mut inherit_unknown = s.dup_of.is_some();
             let mut open_since: u64 = 0;
             let mut linked_seen = 0usize;
             let mut synced_seen = 0usize;
@@ -457,6 +622,7 @@ pub fn check_all(obs: &Obs, out: &mut CaseOut) -> Summary {
                                 json!({"lane": lane, "linked_seen": linked_seen, "link_requests": links_started, "sync_requests": syncs_started}),
                             );
                         }
+                        inherit_unknown = false;
                         if !open {
                             open = true;
                             open_since = f.ticket;
@@ -478,7 +644,13 @@ pub fn check_all(obs: &Obs, out: &mut CaseOut) -> Summary {
                     FrameKind::Synced => {
                         synced_seen += 1;
                         sum.synced_frames += 1;
-                        if !open {
+                        if !open && inherit_unknown {
+                            // the id's link is open (it came along from the first attachment)
+                            out.count("dup-attach/frames-on-a-link-inherited-from-the-first-attachment");
+                            open = true;
+                            open_since = f.ticket;
+                            inherit_unknown = false;
+                        } else if !open {
                             out.violation("C04", format!("synced-outside-link/{kind}"), "synced received while no link is open", json!({"lane": lane}));
                         }
                         if synced_seen > syncs_started {
@@ -490,7 +662,15 @@ pub fn check_all(obs: &Obs, out: &mut CaseOut) -> Summary {
                         // The statement is about a remote that syncs; a remote that also asks to unlink while
                         // the answer is under way discards (by its own request) part of that answer.
                         let raced = t_q.map_or(true, |t_q| lf.prior.iter().chain(lf.reqs.iter()).any(|r| r.kind == ReqKind::Unlink && r.t0 > t_q && r.t0 < f.ticket));
-                        if raced {
+                        // An answer that began on the first of two overlapping attachments continues here: this
+                        // channel alone does not show the snapshot.
+                        let split_answer = s.dup_of.is_some() && lf.prior.iter().any(|r| r.kind == ReqKind::Sync);
+                        if split_answer {
+                            out.count("dup-attach/sync-window-skipped-answer-may-span-both-attachments");
+                        }
+                        let raced = raced || split_answer;
+                        if split_answer {
+                        } else if raced {
                             out.count("sync-window-skipped-unlink-raced");
                         } else if f.ticket < q {
                             synced_clean_before_q = true;
@@ -575,6 +755,10 @@ pub fn check_all(obs: &Obs, out: &mut CaseOut) -> Summary {
                             if lnf_seen > links_started + syncs_started + unlinks_started {
                                 out.violation("C04", "lane-not-found-unmatched", "more lane-not-found replies than requests for that lane", json!({"lane": lane, "seen": lnf_seen}));
                             }
+                        } else if inherit_unknown {
+                            // closes the link this id held through its first attachment
+                            inherit_unknown = false;
+                            out.count("dup-attach/frames-on-a-link-inherited-from-the-first-attachment");
                         } else {
                             out.violation(
                                 "C04",
@@ -585,7 +769,12 @@ pub fn check_all(obs: &Obs, out: &mut CaseOut) -> Summary {
                         }
                     }
                     FrameKind::Event => {
-                        if !open {
+                        if !open && inherit_unknown {
+                            out.count("dup-attach/frames-on-a-link-inherited-from-the-first-attachment");
+                            open = true;
+                            open_since = f.ticket;
+                            inherit_unknown = false;
+                        } else if !open {
                             out.violation("C04", format!("event-outside-link/{kind}"), "event received while no link is open", json!({"lane": lane, "body": show(&f.body)}));
                         }
                         let Some(li) = li else { continue };
@@ -697,6 +886,15 @@ pub fn check_all(obs: &Obs, out: &mut CaseOut) -> Summary {
                             }
                             LK::Map => {
                                 sum.map_events_checked += 1;
+                                // A key that is not UTF-8 is no Recon key: the event is outside what C02 speaks
+                                // about. If the runtime passes it on, the body must be the lane's (C04).
+                                if li.rec.emitted.iter().any(|e| match &e.what {
+                                    Emitted::BadKey { key, value } => e.t0 < f.ticket && render_bad(key, value.as_deref()) == f.body.as_ref(),
+                                    _ => false,
+                                }) {
+                                    out.count("nonutf8-key-event-delivered-as-the-lane-wrote-it");
+                                    continue;
+                                }
                                 let Some(p) = peel(&f.body) else {
                                     stray(out, &f.body);
                                     continue;
@@ -863,7 +1061,9 @@ pub fn check_all(obs: &Obs, out: &mut CaseOut) -> Summary {
                             // replica at q, keyed by parsed key; the loop above kept `replica` up to the last frame,
                             // which at a clean end is the state at q (frames after q belong to the shutdown only).
                             let mut rep: BTreeMap<usize, String> = BTreeMap::new();
-                            let mut is_open = false;
+                            // (an attachment made over an open one: events before the first linked on this channel
+                            // belong to the link the id brought along, and that linked acknowledges an open link)
+                            let mut is_open = s.dup_of.is_some();
                             let mut extra: Vec<Value> = vec![];
                             for f in lf.frames.iter().filter(|f| f.ticket < q) {
                                 match f.kind {
@@ -978,6 +1178,9 @@ pub fn check_all(obs: &Obs, out: &mut CaseOut) -> Summary {
                     if let Some(last_sync) = lf.reqs.iter().filter(|r| r.kind == ReqKind::Sync && r.t1.map_or(false, |t| t < q)).last() {
                         let unlink_after = lf.reqs.iter().any(|r| r.kind == ReqKind::Unlink && r.t0 > last_sync.t0);
                         let answered = lf.frames.iter().any(|f| f.kind == FrameKind::Synced && f.ticket > last_sync.t0);
+                        if s.dup_of.is_some() && answered {
+                            out.count("dup-attach/sync-on-the-second-attachment-answered");
+                        }
                         if !unlink_after && !answered {
                             out.violation("C03", format!("sync-never-completed/{kind}"), "a sync request was never answered with synced although the agent is quiescent and the remote drained its channel", json!({"lane": lane}));
                         }
@@ -1023,8 +1226,35 @@ pub fn check_all(obs: &Obs, out: &mut CaseOut) -> Summary {
             // decided below from its requests, rule `completion/pruned-while-linked`.)
             let pruned = matches!(v.completion, Some((_, Some(DisconnectionReason::RemoteTimedOut))));
             if let Some(tc) = closed_by_runtime {
+                let cut = cuts[si].filter(|_| obs.stuck.is_empty());
                 if open && pruned {
                     out.count("closed-by-prune-with-link-open-in-the-remotes-view");
+                } else if open && v.superseded_by.is_some() {
+                    // the id's links live on with the attachment that replaced this one
+                    out.count("dup-attach/first-channel-closed-with-link-open");
+                } else if let (true, Some((_, bl, t_key))) = (open, cut) {
+                    // Everything the runtime had for this remote was written before it dropped the writer (the
+                    // writer is only lost while it is idle), and the reader read up to the end of the stream: the
+                    // link is open on both sides and nothing will ever close it.
+                    let same = lanes[bl].spec.name == *lane;
+                    out.violation(
+                        "C04",
+                        format!("nonutf8-map-key/channel-closed-without-unlinked/link-on={}", if same { "same-lane" } else { "other-lane" }),
+                        "after a map lane wrote an event whose key is not UTF-8, the runtime closed the channel of a remote linked to that lane - without unlinked for its open links and without completing its promise",
+                        json!({"lane": lane, "lane_with_the_key": lanes[bl].spec.name, "linked_at": open_since, "closed_at": tc}),
+                    );
+                    // C02: operations on ordinary keys that the lane performed afterwards can no longer arrive.
+                    if let (true, Some(li), true) = (same, li, obs.quiescent.is_some()) {
+                        let later = li.rec.emitted.iter().filter(|e| matches!(&e.what, Emitted::Std(Payload::Map(_))) && e.t0 > t_key && e.t1.map_or(false, |t| t < q)).count();
+                        if later > 0 {
+                            out.violation(
+                                "C02",
+                                "nonutf8-map-key/later-operations-on-valid-keys-not-delivered",
+                                "a linked, reading remote no longer receives the lane's operations on ordinary keys after the lane wrote one event whose key is not UTF-8 (its channel was closed); its replica cannot converge",
+                                json!({"lane": lane, "operations_after": later, "closed_at": tc}),
+                            );
+                        }
+                    }
                 } else if open && obs.stuck.is_empty() {
                     // The frame that opened the link was written when the request was handled, possibly long
                     // before a stalled reader received it: look at stalls since that request.
@@ -1137,6 +1367,9 @@ pub fn check_all(obs: &Obs, out: &mut CaseOut) -> Summary {
                                 out.count("completion-agent-timed-out");
                             }
                         }
+                        DisconnectionReason::DuplicateRegistration(id) if v.superseded_by.is_some() && id == s.id => {
+                            out.count("completion-duplicate-registration");
+                        }
                         other => {
                             out.violation("C04", format!("completion/unexpected-reason/{}", common::sanitize_sig(&format!("{other:?}"))), "a remote was completed with a reason that cannot apply to this conversation", json!({"reason": format!("{other:?}")}));
                         }
@@ -1156,6 +1389,27 @@ pub fn check_all(obs: &Obs, out: &mut CaseOut) -> Summary {
                 None => {
                     if obs.agent_finished.is_some() && obs.stuck.is_empty() {
                         out.violation("C04", format!("completion/never-completed/{end_kind}"), "the agent finished but the completion promise of a registered remote was neither satisfied nor dropped", json!({}));
+                    }
+                }
+            }
+            // Overlapping attachments: once the second attachment is confirmed the runtime has replaced the first,
+            // whose promise must be completed (with a reason) then - not left pending until the agent stops.
+            if let (Some(succ), true) = (v.superseded_by, obs.stuck.is_empty()) {
+                if let Some(ta) = obs.sessions[succ].attached_t1 {
+                    let in_time = |t: u64| end_request.map_or(true, |e| t < e || e < ta);
+                    match v.completion {
+                        Some((t, Some(_))) if in_time(t) => out.count("dup-attach/first-promise-completed-at-replacement"),
+                        Some((t, None)) if in_time(t) => {
+                            out.violation("C04", "dup-attach/first-promise-dropped", "the completion promise of an attachment that was replaced by a second attachment under the same id was dropped without a reason", json!({"at": t, "replaced_at": ta}));
+                        }
+                        other => {
+                            out.violation(
+                                "C04",
+                                "dup-attach/first-promise-left-pending",
+                                "an attachment was replaced by a second attachment under the same id but its completion promise was not completed at the replacement",
+                                json!({"completion": format!("{other:?}"), "replaced_at": ta, "end_requested_at": end_request}),
+                            );
+                        }
                     }
                 }
             }
@@ -1361,7 +1615,7 @@ pub fn check_all(obs: &Obs, out: &mut CaseOut) -> Summary {
 
     // ---- C20: reporters at the checkpoints
     if obs.cfg.reporting && obs.stuck.is_empty() {
-        check_reporting(obs, &lanes, &views, out, &mut sum);
+        check_reporting(obs, &lanes, &views, &cuts, out, &mut sum);
     }
     // ---- C17 at the runtime level
     if obs.cfg.inactive_ms.is_some() && obs.cfg.nothing_stalls && obs.stuck.is_empty() {
@@ -1428,7 +1682,7 @@ fn check_inactivity(obs: &Obs, lanes: &[LaneInfo], views: &[SView], out: &mut Ca
         // left the write task alone ends the agent).
         let unanimous = views.iter().any(|v| matches!(v.completion, Some((_, Some(DisconnectionReason::AgentTimedOut)))));
         if unanimous {
-            'cmds: for v in views {
+            'cmds: for (vi, v) in views.iter().enumerate() {
                 for r in v.reqs.iter().filter(|r| r.kind == ReqKind::Command && r.t1.map_or(false, |t| t < f_t)) {
                     let Some(li) = lanes.iter().find(|l| l.spec.name == r.lane) else { continue };
                     let delivered = li.rec.received.iter().any(|x| x.t > r.t0 && x.t < f_t && matches!(&x.what, Received::Command(b) if *b == r.body));
@@ -1437,6 +1691,9 @@ fn check_inactivity(obs: &Obs, lanes: &[LaneInfo], views: &[SView], out: &mut Ca
                     }
                     let Some(a_v) = v_of(r.t0) else { continue };
                     out.count("c17-activity-checked");
+                    if obs.sessions[vi].one_way {
+                        out.count("c17-oneway-command-activity-checked");
+                    }
                     if a_v < f_v && f_v.saturating_duration_since(a_v) < timeout {
                         out.violation(
                             "C17",
@@ -1458,7 +1715,7 @@ fn check_inactivity(obs: &Obs, lanes: &[LaneInfo], views: &[SView], out: &mut Ca
     let unanimous_stop = views.iter().any(|v| matches!(v.completion, Some((_, Some(DisconnectionReason::AgentTimedOut)))));
     if let (true, true, Some(f_t), Some(f_v)) = (by_itself, unanimous_stop, f_t_all, f_v_all) {
         let v_upper = |t: u64| obs.step_times.iter().find(|(st, _)| *st > t).map(|x| x.1);
-        'flight: for v in views {
+        'flight: for (vi, v) in views.iter().enumerate() {
             for r in v.reqs.iter().filter(|r| r.kind == ReqKind::Command) {
                 let Some(t1) = r.t1 else { continue };
                 let Some(li) = lanes.iter().find(|l| l.spec.name == r.lane) else { continue };
@@ -1475,6 +1732,9 @@ fn check_inactivity(obs: &Obs, lanes: &[LaneInfo], views: &[SView], out: &mut Ca
                     _ => false,
                 });
                 out.count("c17-commands-written-before-the-stop");
+                if obs.sessions[vi].one_way {
+                    out.count("c17-oneway-commands-written-before-the-stop");
+                }
                 if !delivered {
                     out.violation(
                         "C17",
@@ -1499,6 +1759,101 @@ fn check_inactivity(obs: &Obs, lanes: &[LaneInfo], views: &[SView], out: &mut Ca
             );
         }
     }
+}
+
+/// Overlapping attachments: once the runtime has completed the promise of the first attachment ("the
+/// registration was replaced") that channel is closed as far as its owner can tell. A frame that was provably
+/// produced after that instant - an event whose body the lane wrote later, a linked / synced that no request
+/// made before that instant can have caused - was written to the replaced attachment instead of the one that
+/// replaced it. (A write that was under way at the replacement carries a frame produced before it.)
+/// Returns (frame, lane name, ticket of the completion).
+fn late_frames<'a>(v: &'a SView, lanes: &[LaneInfo], lane_by_name: &HashMap<&str, usize>) -> Vec<(&'a Frame, &'a str, u64)> {
+    let (Some(_), Some((tc, _))) = (v.superseded_by, v.completion) else { return vec![] };
+    let asked_before = |lane: &str, kinds: &[ReqKind]| v.reqs.iter().chain(v.prior_reqs.iter()).any(|r| r.lane == lane && kinds.contains(&r.kind) && r.t0 < tc);
+    v.frames
+        .iter()
+        .filter(|f| match f.kind {
+            FrameKind::Event => lane_by_name.get(f.lane.as_str()).and_then(|i| emitted_t0(&lanes[*i], &f.body)).map_or(false, |t0| t0 > tc),
+            FrameKind::Synced => !asked_before(&f.lane, &[ReqKind::Sync]),
+            FrameKind::Linked => !asked_before(&f.lane, &[ReqKind::Sync, ReqKind::Link]),
+            FrameKind::Unlinked => false,
+        })
+        .map(|f| (f, f.lane.as_str(), tc))
+        .collect()
+}
+
+/// Ticket before the lane first wrote a frame with this body (None: the lane never did, or the body is empty).
+fn emitted_t0(li: &LaneInfo, body: &[u8]) -> Option<u64> {
+    if body.is_empty() {
+        return None;
+    }
+    li.rec
+        .emitted
+        .iter()
+        .filter(|e| match &e.what {
+            Emitted::Std(Payload::Bytes(b)) | Emitted::SyncEv(_, Payload::Bytes(b)) => b.as_ref() == body,
+            Emitted::Std(Payload::Map(op)) | Emitted::SyncEv(_, Payload::Map(op)) => match op {
+                MapOpText::Update { key, value } => render_update(key.as_bytes(), value.as_bytes()) == body,
+                MapOpText::Remove { key } => render_remove(key.as_bytes()) == body,
+                MapOpText::Clear => body == b"@clear",
+            },
+            _ => false,
+        })
+        .map(|e| e.t0)
+        .min()
+}
+
+fn render_bad(key: &[u8], value: Option<&str>) -> Vec<u8> {
+    match value {
+        Some(v) => render_update(key, v.as_bytes()),
+        None => render_remove(key),
+    }
+}
+
+/// Sessions whose channel the runtime closed after a map lane to which the session held an open link had
+/// written an event with a key that is not UTF-8: (ticket at which the reader found the end, that lane, ticket
+/// after the lane had written the event).
+/// The writer of such a remote is lost at the moment the event is handled (only an idle writer is), so the
+/// session received nothing that was produced after that event; the remote was not removed for a reason of
+/// its own (pruned, reader dropped, replaced), and a close that was only found after the agent had been asked
+/// to stop is attributed to the key only if the reader was not stalled meanwhile (a stalled reader can find its
+/// channel closed mid-way by the shutdown time-out).
+fn cut_sessions(obs: &Obs, lanes: &[LaneInfo], views: &[SView], bad_keys: &[(usize, u64, u64)]) -> Vec<Option<(u64, usize, u64)>> {
+    let end_request = obs.stop_requested.or(obs.return_requested);
+    obs.sessions
+        .iter()
+        .zip(views.iter())
+        .map(|(s, v)| {
+            let Some(ReaderEnd::Closed(tc)) = &v.end else { return None };
+            let tc = *tc;
+            if s.one_way || s.is_probe || v.superseded_by.is_some() {
+                return None;
+            }
+            if let Some((t, reason)) = v.completion {
+                if t < tc && matches!(reason, Some(DisconnectionReason::RemoteTimedOut | DisconnectionReason::ChannelClosed | DisconnectionReason::DuplicateRegistration(_))) {
+                    return None;
+                }
+            }
+            if let Some(e) = end_request.filter(|e| *e < tc) {
+                if stalled_between(s, e.min(s.attached_t0), tc) {
+                    return None;
+                }
+            }
+            bad_keys.iter().filter(|(_, t0, _)| *t0 < tc).find_map(|(l, _, t1)| {
+                let name = &obs.cfg.lanes[*l].name;
+                let frames: Vec<&Frame> = v.frames.iter().filter(|f| f.lane == *name).collect();
+                let nothing_later = v.frames.iter().filter(|f| f.kind == FrameKind::Event).all(|f| {
+                    let li = lanes.iter().find(|li| li.spec.name == f.lane);
+                    li.and_then(|li| emitted_t0(li, &f.body)).map_or(true, |t0| t0 < *t1)
+                });
+                if open_before(&frames, tc).0 && nothing_later {
+                    Some((tc, *l, *t1))
+                } else {
+                    None
+                }
+            })
+        })
+        .collect()
 }
 
 fn lane_emitted_bytes(li: &LaneInfo, body: &[u8]) -> bool {
@@ -1560,7 +1915,45 @@ fn holds(s: &Session, v: &SView, lane: &str, c: u64) -> Holds {
     }
 }
 
-fn check_reporting(obs: &Obs, lanes: &[LaneInfo], views: &[SView], out: &mut CaseOut, sum: &mut Summary) {
+/// `holds` for every kind of session: a command-only channel holds nothing; an attachment made over an open
+/// one under the same id may have brought that id's links along (the runtime keeps them): until this channel
+/// has seen linked / unlinked for the lane, a link that any attachment of the id ever asked for is possible -
+/// the statement does not say whether it counts as "actually linked", so it is neither demanded nor refused;
+/// a session whose channel was closed after a non-UTF-8 key (`cuts`) is reported by its own rule and is
+/// likewise neither demanded nor refused here.
+fn holds_at(obs: &Obs, views: &[SView], cuts: &[Option<(u64, usize, u64)>], si: usize, lane: &str, c: u64) -> Holds {
+    let (s, v) = (&obs.sessions[si], &views[si]);
+    if s.one_way {
+        return Holds::No;
+    }
+    if let Some((tc, _, _)) = cuts[si] {
+        if tc < c && v.completion.map_or(true, |(t, _)| t >= c) {
+            // (the runtime still reads the remote's requests: links it asks for - before it notices the end of
+            // its stream - are registered although nothing can be sent for them)
+            let frames: Vec<&Frame> = v.frames.iter().filter(|f| f.lane == lane).collect();
+            let asked = v.reqs.iter().any(|r| r.lane == lane && r.t0 < c && matches!(r.kind, ReqKind::Link | ReqKind::Sync));
+            return if open_before(&frames, tc).0 || asked { Holds::Uncertain } else { Holds::No };
+        }
+    }
+    let own = holds(s, v, lane, c);
+    if v.dup_of.is_none() {
+        return own;
+    }
+    // (a reader the harness dropped: the runtime keeps the id's links until a write to it fails)
+    let alive = s.attached_t1.map_or(false, |t| t <= c) && v.completion.map_or(true, |(t, _)| t >= c) && !matches!(&v.end, Some(ReaderEnd::Closed(t)) if *t < c);
+    let decided = v.frames.iter().any(|f| f.lane == lane && f.ticket < c && matches!(f.kind, FrameKind::Linked | FrameKind::Unlinked));
+    if !alive || decided || own != Holds::No {
+        return own;
+    }
+    let asked = v.reqs.iter().chain(v.prior_reqs.iter()).any(|r| r.lane == lane && r.t0 < c && matches!(r.kind, ReqKind::Link | ReqKind::Sync));
+    if asked {
+        Holds::Uncertain
+    } else {
+        Holds::No
+    }
+}
+
+fn check_reporting(obs: &Obs, lanes: &[LaneInfo], views: &[SView], cuts: &[Option<(u64, usize, u64)>], out: &mut CaseOut, sum: &mut Summary) {
     let mut cum_cmd_lane: Vec<u64> = vec![0; lanes.len()];
     let mut cum_cmd_agg: u64 = 0;
     let mut c_prev: u64 = 0;
@@ -1598,8 +1991,18 @@ fn check_reporting(obs: &Obs, lanes: &[LaneInfo], views: &[SView], out: &mut Cas
         for li in lanes {
             let name = li.spec.name.as_str();
             let kind = li.spec.kind.name();
-            let now: Vec<Holds> = obs.sessions.iter().zip(views.iter()).map(|(s, v)| holds(s, v, name, c)).collect();
-            let before: Vec<Holds> = obs.sessions.iter().zip(views.iter()).map(|(s, v)| if c_prev == 0 { Holds::No } else { holds(s, v, name, c_prev) }).collect();
+            let now: Vec<Holds> = (0..views.len()).map(|i| holds_at(obs, views, cuts, i, name, c)).collect();
+            let before: Vec<Holds> = (0..views.len()).map(|i| if c_prev == 0 { Holds::No } else { holds_at(obs, views, cuts, i, name, c_prev) }).collect();
+            // links of sessions whose channel was closed after a non-UTF-8 key: nobody can receive on them
+            let cut_here = (0..views.len())
+                .filter(|i| {
+                    now[*i] == Holds::Uncertain
+                        && cuts[*i].map_or(false, |(tc, _, _)| {
+                            let frames: Vec<&Frame> = views[*i].frames.iter().filter(|f| f.lane == name).collect();
+                            tc < c && open_before(&frames, tc).0
+                        })
+                })
+                .count() as u64;
             let p_cur = now.iter().filter(|h| **h == Holds::Certain).count() as u64;
             let u_cur = now.iter().filter(|h| **h == Holds::Uncertain).count() as u64;
             total_lo += p_cur;
@@ -1626,6 +2029,14 @@ fn check_reporting(obs: &Obs, lanes: &[LaneInfo], views: &[SView], out: &mut Cas
             });
             let count_under = snap.link_count < p_cur;
             let count_over = snap.link_count > p_cur + u_cur;
+            if cut_here > 0 && snap.link_count > p_cur + u_cur - cut_here {
+                out.violation(
+                    "C20",
+                    "nonutf8-map-key/link-still-counted-after-channel-closed",
+                    "the uplink count reported for a lane includes a remote whose channel the runtime closed after a map lane wrote an event with a key that is not UTF-8 (the remote stays registered, nothing can reach it)",
+                    json!({"lane": name, "kind": kind, "reported": snap.link_count, "proven": p_cur, "uncertain": u_cur - cut_here, "cut": cut_here, "checkpoint": c}),
+                );
+            }
             if count_under {
                 out.violation(
                     "C20",
@@ -1680,6 +2091,12 @@ fn check_reporting(obs: &Obs, lanes: &[LaneInfo], views: &[SView], out: &mut Cas
                             n_partial += 1;
                         }
                     }
+                    // an event the runtime may count for its links and then discard: bounds only
+                    Emitted::BadKey { .. } => {
+                        if done_in || straddles {
+                            n_partial += 1;
+                        }
+                    }
                     _ => {}
                 }
             }
@@ -1713,9 +2130,12 @@ fn check_reporting(obs: &Obs, lanes: &[LaneInfo], views: &[SView], out: &mut Cas
                     .iter()
                     .zip(views.iter())
                     .filter(|(s, v)| {
-                        s.attached_t1.map_or(false, |t| t < c)
+                        !s.one_way
+                            && s.attached_t1.map_or(false, |t| t < c)
                             && v.completion.map_or(true, |(t, _)| t > c_prev)
-                            && (v.reqs.iter().any(|r| r.lane == name && r.t0 < c && matches!(r.kind, ReqKind::Link | ReqKind::Sync)) || v.frames.iter().any(|f| f.lane == name && f.kind == FrameKind::Linked))
+                            && (v.reqs.iter().any(|r| r.lane == name && r.t0 < c && matches!(r.kind, ReqKind::Link | ReqKind::Sync))
+                                || v.frames.iter().any(|f| f.lane == name && f.kind == FrameKind::Linked)
+                                || (v.dup_of.is_some() && v.prior_reqs.iter().any(|r| r.lane == name && r.t0 < c && matches!(r.kind, ReqKind::Link | ReqKind::Sync))))
                     })
                     .count() as u64;
                 (lo, (n_std + n_partial) * candidates + n_sync_ev + n_synced + n_partial)
